@@ -13,8 +13,8 @@ def recOf (w1 : World) (a : Oid) (op : Op) (vs : Option (Oid × Name × Ans)) (c
 def recOfR (a : Oid) (op : Op) (x : World × List Creation × Option (Oid × Name × Ans) × Res) : StepRec :=
   recOf x.1 a op x.2.2.1 x.2.1 x.2.2.2
 
-theorem noEuid_of_all {P : List Obj} {r : StepRec} (h : r.creations.all (fun c => c.ans.isNone) = true) :
-    noEuidClause P r = true := by
+theorem noEuid_of_all {P : List Obj} {r : StepRec} (h : r.creations.all (fun c => c.ans.isNone) = true)
+    (hco : r.co = none) : noEuidClause P r = true := by
   unfold noEuidClause
   cases getO P r.actor with
   | none => rfl
@@ -55,7 +55,7 @@ theorem stepOK_same {bb : Option Name} {w : World} (hw : Inv w) (w1 : World) (ho
 theorem actor_missing_ok {bb : Option Name} {w : World} (hw : Inv w) (a : Oid) (op : Op)
     (hA : getO w.objs a = none) : StepOK bb w.objs w (recOf w a op none [] .nobj) := by
   apply stepOK_same hw w rfl
-  · exact noEuid_of_all (by simp [recOf])
+  · exact noEuid_of_all (by simp [recOf]) rfl
   · unfold exportClause; simp only [recOf]; cases op <;> simp [hA]
   · unfold askedClause; simp only [recOf]; cases op <;> simp [hA]
 
@@ -77,12 +77,12 @@ theorem seteuidInt_ok {bb : Option Name} {w : World} (hw : Inv w) {a : Oid} {A :
       · exact Or.inl h
     · intro c hc; simp at hc
     · simp [creationClause, recOf]
-    · exact noEuid_of_all (by simp [recOf])
+    · exact noEuid_of_all (by simp [recOf]) rfl
     · simp [exportClause, recOf]
     · simp [askedClause, recOf]
   · simp only [hn, if_false]
     apply stepOK_same hw w rfl
-    · exact noEuid_of_all (by simp [recOf])
+    · exact noEuid_of_all (by simp [recOf]) rfl
     · simp [exportClause, recOf]
     · simp [askedClause, recOf]
 
@@ -96,7 +96,7 @@ theorem seteuidStr_ok {bb : Option Name} {w : World} (hw : Inv w) {a : Oid} {A :
   by_cases he : pol.vs i A.oid s = .err
   · simp only [he, if_true]
     apply stepOK_same hw w rfl
-    · exact noEuid_of_all (by simp [recOf])
+    · exact noEuid_of_all (by simp [recOf]) rfl
     · simp [exportClause, recOf]
     · simp [askedClause, recOf, hA]
   · simp only [he, if_false]
@@ -113,12 +113,12 @@ theorem seteuidStr_ok {bb : Option Name} {w : World} (hw : Inv w) {a : Oid} {A :
         · exact Or.inl h
       · intro c hc; simp at hc
       · simp [creationClause, recOf]
-      · exact noEuid_of_all (by simp [recOf])
+      · exact noEuid_of_all (by simp [recOf]) rfl
       · simp [exportClause, recOf]
       · simp [askedClause, recOf, hA]
     · simp only [hap]
       apply stepOK_same hw w rfl
-      · exact noEuid_of_all (by simp [recOf])
+      · exact noEuid_of_all (by simp [recOf]) rfl
       · simp [exportClause, recOf]
       · simp [askedClause, recOf, hA]
 
@@ -129,7 +129,7 @@ theorem export_ok {bb : Option Name} {w : World} (hw : Inv w) {a : Oid} {A : Obj
   cases hT : getO w.objs t with
   | none =>
     apply stepOK_same hw w rfl
-    · exact noEuid_of_all (by simp [recOf])
+    · exact noEuid_of_all (by simp [recOf]) rfl
     · simp [exportClause, recOf, hA, hT]
     · simp [askedClause, recOf]
   | some T =>
@@ -138,14 +138,14 @@ theorem export_ok {bb : Option Name} {w : World} (hw : Inv w) {a : Oid} {A : Obj
     by_cases h1 : A.euid = none
     · simp only [h1, if_true]
       apply stepOK_same hw w rfl
-      · exact noEuid_of_all (by simp [recOf])
+      · exact noEuid_of_all (by simp [recOf]) rfl
       · simp [exportClause, recOf, hA, hT, h1]
       · simp [askedClause, recOf]
     · simp only [h1, if_false]
       by_cases h2 : T.euid ≠ none
       · rw [if_pos h2]
         apply stepOK_same hw w rfl
-        · exact noEuid_of_all (by simp [recOf])
+        · exact noEuid_of_all (by simp [recOf]) rfl
         · simp [exportClause, recOf, hA, hT, h1]
         · simp [askedClause, recOf]
       · have h2' : T.euid = none := by simpa using h2
@@ -165,7 +165,7 @@ theorem export_ok {bb : Option Name} {w : World} (hw : Inv w) {a : Oid} {A : Obj
           · exact Or.inl h
         · intro c hc; simp at hc
         · simp [creationClause, recOf]
-        · exact noEuid_of_all (by simp [recOf])
+        · exact noEuid_of_all (by simp [recOf]) rfl
         · simp [exportClause, recOf, hA, hT, hsome, h2', h1]
         · simp [askedClause, recOf]
 
@@ -175,14 +175,14 @@ theorem dest_ok {bb : Option Name} {w : World} (hw : Inv w) {a : Oid} {A : Obj} 
   cases hT : getO w.objs t with
   | none =>
     apply stepOK_same hw w rfl
-    · exact noEuid_of_all (by simp [recOf])
+    · exact noEuid_of_all (by simp [recOf]) rfl
     · simp [exportClause, recOf]
     · simp [askedClause, recOf]
   | some T =>
     by_cases hm : t = masterOid
     · simp only [hm, if_true]
       apply stepOK_same hw w rfl
-      · exact noEuid_of_all (by simp [recOf])
+      · exact noEuid_of_all (by simp [recOf]) rfl
       · simp [exportClause, recOf]
       · simp [askedClause, recOf]
     · simp only [hm, if_false]
@@ -195,7 +195,7 @@ theorem dest_ok {bb : Option Name} {w : World} (hw : Inv w) {a : Oid} {A : Obj} 
         exact Or.inl (frame_delO hw.wf hmem)
       · intro c hc; simp at hc
       · simp [creationClause, recOf]
-      · exact noEuid_of_all (by simp [recOf])
+      · exact noEuid_of_all (by simp [recOf]) rfl
       · simp [exportClause, recOf]
       · simp [askedClause, recOf]
 
@@ -205,7 +205,7 @@ theorem reload_ok {bb : Option Name} {w : World} (hw : Inv w) {a : Oid} {A : Obj
   cases hT : getO w.objs t with
   | none =>
     apply stepOK_same hw w rfl
-    · exact noEuid_of_all (by simp [recOf])
+    · exact noEuid_of_all (by simp [recOf]) rfl
     · simp [exportClause, recOf]
     · simp [askedClause, recOf]
   | some T =>
@@ -214,7 +214,7 @@ theorem reload_ok {bb : Option Name} {w : World} (hw : Inv w) {a : Oid} {A : Obj
     by_cases hm : t = masterOid
     · simp only [hm, if_true]
       apply stepOK_same hw w rfl
-      · exact noEuid_of_all (by simp [recOf])
+      · exact noEuid_of_all (by simp [recOf]) rfl
       · simp [exportClause, recOf]
       · simp [askedClause, recOf]
     · simp only [hm, if_false]
@@ -232,7 +232,7 @@ theorem reload_ok {bb : Option Name} {w : World} (hw : Inv w) {a : Oid} {A : Obj
         subst hmade
         simp [getO_setO]
       · simp [creationClause, recOf, madeOk, hTo, hT]
-      · exact noEuid_of_all (by simp [recOf])
+      · exact noEuid_of_all (by simp [recOf]) rfl
       · simp [exportClause, recOf]
       · simp [askedClause, recOf]
 
@@ -311,7 +311,7 @@ theorem load_ok {w : World} (hw : Inv w) {a : Oid} {A : Obj} (hA : getO w.objs a
   by_cases hgd : (p.name ∉ w.loaded ∨ p.name ∈ w.half) ∧ getO w.objs p.oid ≠ none
   · rw [if_pos hgd]
     apply stepOK_same hw w rfl
-    · exact noEuid_of_all (by simp [recOf])
+    · exact noEuid_of_all (by simp [recOf]) rfl
     · simp [exportClause, recOf]
     · simp [askedClause, recOf]
   rw [if_neg hgd]
@@ -333,26 +333,26 @@ theorem load_ok {w : World} (hw : Inv w) {a : Oid} {A : Obj} (hA : getO w.objs a
         subst hmade
         simp [getO_setO]
       · simp [creationClause, recOf, madeOk]
-      · exact noEuid_of_all (by simp [recOf])
+      · exact noEuid_of_all (by simp [recOf]) rfl
       · simp [exportClause, recOf]
       · simp [askedClause, recOf]
     · rw [if_neg hh]
       apply stepOK_same hw w rfl
-      · exact noEuid_of_all (by simp [recOf])
+      · exact noEuid_of_all (by simp [recOf]) rfl
       · simp [exportClause, recOf]
       · simp [askedClause, recOf]
   · rw [if_neg hl]
     by_cases hguard : A.oid ≠ masterOid ∧ A.euid = none
     · rw [if_pos hguard]
       apply stepOK_same hw w rfl
-      · exact noEuid_of_all (by simp [recOf])
+      · exact noEuid_of_all (by simp [recOf]) rfl
       · simp [exportClause, recOf]
       · simp [askedClause, recOf]
     · rw [if_neg hguard]
       by_cases hex : p.exists = false
       · rw [if_pos hex]
         apply stepOK_same hw w rfl
-        · exact noEuid_of_all (by simp [recOf])
+        · exact noEuid_of_all (by simp [recOf]) rfl
         · simp [exportClause, recOf]
         · simp [askedClause, recOf]
       · rw [if_neg hex]
